@@ -192,7 +192,17 @@ def gen_cases(tier: str, seed: int) -> List[Dict]:
     def P(shape, prefix="a", nterms=None, names=None):
         size = S.size_of(shape)
         nt = nterms or (1 if size > 6 else rng.choice([1, 2]))
-        return _distinct_poly(prefix, names or rng.choice(names_pool), shape, rng, nt, maxatoms=10 if quick else 14)
+        # a third of the operands are strided views (poly.T, poly[::-1], swapaxes) of a base array
+        view = rng.choice([None, None, "T", "rev", "swap"]) if len(shape) >= 1 and size > 1 else None
+        base = tuple(shape)
+        if view == "T":
+            base = tuple(reversed(shape))
+        elif view == "swap":
+            base = (shape[-1],) + tuple(shape[1:-1]) + (shape[0],) if len(shape) >= 2 else tuple(shape)
+        spec = _distinct_poly(prefix, names or rng.choice(names_pool), base, rng, nt, maxatoms=10 if quick else 14)
+        if view:
+            spec["view"] = view
+        return spec
 
     # reshape (function + method), ravel/flatten/T/flat, iteration
     for shape in shapes:
